@@ -33,7 +33,8 @@ Switches == { "numpy-shape-dtype",          \* array digest = f(class, size, raw
               "set-sorted-partial-order",   \* set digest = f(elements in Python's sorted() order)
               "closure-value",              \* function digest ignores captured cell values
               "shell-field-metadata",       \* task digest ignores argstr/position/sep/formatter
-              "generic-alias-args" }        \* digest of list[int], dict[str, int], ... ignores the arguments
+              "generic-alias-args",         \* digest of list[int], dict[str, int], ... ignores the arguments
+              "stateless-objects-alike" }   \* objects without Python-level state (built-ins, ufuncs, partials) hash by type only
 
 ScalarKinds == {"int", "float", "complex", "bool", "str", "bytes", "none", "ellipsis"}
 
@@ -116,6 +117,15 @@ CanonS(t, S) ==
          IF "closure-value" \in S
          THEN [k |-> "func", v |-> <<t.v, {}>>]
          ELSE [k |-> "func", v |-> <<t.v, NamedMap(t.cells, S)>>]
+    [] t.k = "cfunc" ->    \* a callable without Python-level state: built-in function, method descriptor, numpy ufunc,
+                           \* operator.itemgetter - it is the global it names (with its arguments)
+         IF "stateless-objects-alike" \in S
+         THEN [k |-> "cfunc", v |-> <<t.cls>>]            \* as first built: only the type of such an object was hashed
+         ELSE [k |-> "cfunc", v |-> <<t.cls, t.v>>]
+    [] t.k = "partial" ->  \* functools.partial(fn, *args): the function and the bound arguments
+         IF "stateless-objects-alike" \in S
+         THEN [k |-> "partial", v |-> <<>>]
+         ELSE [k |-> "partial", v |-> <<CanonS(t.fn, S), CanonSeq(t.v, S)>>]
     [] t.k = "task" ->     \* a task used as a value (e.g. the `defn` of a split)
          [k |-> "task", v |-> <<t.cls, NamedMap(t.v, S), CanonS(t.splitter, S), CanonS(t.combiner, S),
                                 CanonS(t.ndim, S), CanonS(t.xor, S)>>]
